@@ -7,7 +7,7 @@
 (* The contents step must satisfy the operation's relation; what the pool *reports* (links, aggregates,     *)
 (* edge indexes, counters, stages) becomes the value of book / cnt / edges / st, so that every invariant of *)
 (* TxPool.tla is evaluated by TLC on the implementation's own values after every operation.                 *)
-EXTENDS TxPool, Json, IOUtils, TLCExt
+EXTENDS Template, Json, IOUtils, TLCExt
 Rec == ndJsonDeserialize(IOEnv.TRACE)
 U == Rec[1]
 SetOfSeq(s) == { s[i] : i \in 1..Len(s) }
@@ -64,6 +64,30 @@ TRemove ==
   /\ SubmitChain(Ev.recovered, OpPool, chain, conf, ObsPool)
   /\ last' = [op |-> "remove", t |-> Ev.t, bad |-> Ev.bad]
   /\ Observed /\ UNCHANGED <<conf, chain>>
+\* nothing was asked of the pool; transactions submitted by another thread / recovered by the pool may have arrived
+TIdle ==
+  /\ Is("Idle")
+  /\ OpPool = pool
+  /\ SubmitChain(Ev.recovered, OpPool, chain, conf, ObsPool)
+  /\ last' = [op |-> "idle", bad |-> Ev.bad]
+  /\ Observed /\ UNCHANGED <<conf, chain>>
+\* C13: a block template the node handed out at this moment (harness c13): nothing changes; the template is
+\* remembered in `last` and judged by the invariant TemplateValid
+TTemplate ==
+  /\ Is("Template")
+  /\ last' = [op |-> "template", tpl |-> Ev, bad |-> Ev.bad]
+  /\ UNCHANGED <<conf, chain, pool, st, book, cnt, edges>>
+\* the main chain up to the parent the template names (<<>> with found = FALSE when it is not on the main chain)
+ParentIdx(id) == IF id = "genesis" THEN 0
+                 ELSE IF \E i \in 1..Len(chain) : chain[i].id = id THEN CHOOSE i \in 1..Len(chain) : chain[i].id = id ELSE 0 - 1
+TemplateValid ==
+  (last.op = "template") =>
+     LET tp == last.tpl
+         pi == ParentIdx(tp.parent)
+     IN /\ tp.judge = "ok"                                            \* the node's own full verification accepts it
+        /\ tp.bytes <= tp.maxBytes /\ tp.cycles <= tp.maxCycles /\ Len(tp.props) <= tp.maxProps
+        /\ pi >= 0 => ContentValid(tp.txs, SubSeq(chain, 1, pi), conf)
+        /\ (pi = Len(chain) /\ tp.settled) => AncestorClosed(tp.txs, pool)
 BlocksOf(a) == [i \in 1..Len(a) |-> [id |-> a[i].id, props |-> SetOfSeq(a[i].props), commits |-> SetOfSeq(a[i].commits)]]
 TReorg ==
   /\ Is("Reorg")
@@ -72,9 +96,10 @@ TReorg ==
      /\ SubmitChain(Ev.recovered, OpPool, NewChain(chain, Ev.detach, blks), conf, ObsPool)
      /\ chain' = NewChain(chain, Ev.detach, blks)
      /\ Ev.ptip = blks[Len(blks)].id                    \* the pool's snapshot follows the chain
-     /\ last' = [op |-> "reorg", k |-> Ev.detach, blks |-> blks, before |-> pool, chainBefore |-> chain, bad |-> Ev.bad]
+     /\ last' = [op |-> "reorg", k |-> Ev.detach, blks |-> blks, before |-> pool, chainBefore |-> chain,
+                 rec |-> SetOfSeq(Ev.recovered), bad |-> Ev.bad]
   /\ Observed /\ UNCHANGED conf
-TNext == TUniverse \/ TReset \/ TSubmit \/ TRemove \/ TReorg
+TNext == TUniverse \/ TReset \/ TSubmit \/ TRemove \/ TIdle \/ TReorg \/ TTemplate
 TSpec == TInit /\ [][TNext]_tvars
 
 \* structural anomalies the dump translation found (hash the history never produced, link to a non-entry, ...)
